@@ -22,6 +22,18 @@ type corpusEntry struct {
 	name   string
 	value  any        // what is encoded
 	target func() any // fresh decode target
+	// poison: encoding this value panics half-way by design. The panic is the reference result of the encode
+	// operations (decode operations are excluded); such entries are not run on the reused encoders
+	poison bool
+}
+
+// keepResult says whether a result computed alone is usable as a reference.
+func keepResult(e *corpusEntry, op int, r string) bool {
+	panicked := len(r) >= 6 && r[:6] == "PANIC:"
+	if e.poison {
+		return panicked && op <= opEncText
+	}
+	return !panicked
 }
 
 const (
@@ -122,6 +134,21 @@ func buildCorpus() {
 	corpus = append(corpus, corpusEntry{name: "any-ptr/RequestHeader", value: &a2, target: func() any { return &kmip.RequestHeader{} }})
 	hdr := &kmip.RequestHeader{ProtocolVersion: kmip.V1_4, BatchCount: 1, ClientCorrelationValue: "ccv", AttestationCapableIndicator: &t}
 	corpus = append(corpus, corpusEntry{name: "bare-header/1.4", value: hdr, target: func() any { return &kmip.RequestHeader{} }})
+	// values whose encoding panics half-way (negative interval after some content; a Go type the encoder does not
+	// support): the panic is the deterministic result of that call, and whatever the aborted call leaves behind
+	// (a half-written pooled buffer, a version) must not show in any later result
+	poison1 := ttlv.Value{Tag: 0x420078, Value: ttlv.Struct{
+		{Tag: 0x420069, Value: int32(41)}, {Tag: 0x42006A, Value: "written before the failure"},
+		{Tag: 0x42000A, Value: ttlv.Struct{{Tag: 0x42000B, Value: int64(7)}, {Tag: 0x420043, Value: -5 * time.Second}}}}}
+	corpus = append(corpus, corpusEntry{name: "poison/negative-interval", value: poison1, poison: true, target: func() any { return &ttlv.Value{} }})
+	type unsupported struct {
+		ProtocolVersion kmip.ProtocolVersion
+		Weird           map[string]int
+	}
+	poison2 := &kmip.RequestMessage{Header: kmip.RequestHeader{ProtocolVersion: kmip.V1_0, BatchCount: 1},
+		BatchItem: []kmip.RequestBatchItem{{Operation: kmip.OperationActivate, RequestPayload: &payloads.ActivateRequestPayload{UniqueIdentifier: "x"}, MessageExtension: &kmip.MessageExtension{VendorIdentification: "v", VendorExtension: ttlv.Struct{{Tag: 0x420043, Value: -time.Second}}}}}}
+	corpus = append(corpus, corpusEntry{name: "poison/request-1.0-negative-interval", value: poison2, poison: true, target: func() any { return &kmip.RequestMessage{} }})
+	_ = unsupported{}
 	for i := 0; i < 6; i++ {
 		g := simrt.NewTape(simrt.Mix(0xC20, uint64(i)))
 		budget := 14
@@ -224,7 +251,7 @@ func codecReference() {
 				r := codecOp(&corpus[i], op, nil)
 				resetCodecCaches()
 				r2 := codecOp(&corpus[i], op, nil)
-				if r != r2 || len(r) >= 6 && r[:6] == "PANIC:" {
+				if r != r2 || !keepResult(&corpus[i], op, r) {
 					r = "" // not deterministic even alone, or panics: excluded from the corpus operations
 				}
 				codecRef[i][op] = r
@@ -349,7 +376,7 @@ func execC20(x *X, scAny any) {
 			s.WaitUntil("warm-done", func() bool { return started })
 			encs := []ttlv.Encoder{ttlv.NewTTLVEncoder(), ttlv.NewXMLEncoder(), ttlv.NewJSONEncoder(), ttlv.NewTextEncoder()}
 			for _, st := range sc.History {
-				if !valid(st) || st.Op > opEncText {
+				if !valid(st) || st.Op > opEncText || corpus[st.Entry].poison {
 					continue
 				}
 				s.Eventf("reused %s #%d", codecOpNames[st.Op], st.Entry)
